@@ -660,7 +660,7 @@ pub fn run(ctx: &Ctx) {
                 .unwrap_or_else(|_| Outcome::fail("panic:recorded", "the replay panicked", p.clone()))
         })
     });
-    let n = std::env::var("C33_CASES").ok().and_then(|s| s.parse::<usize>().ok()).unwrap_or(ctx.scale(200, 3000));
+    let n = std::env::var("C33_CASES").ok().and_then(|s| s.parse::<usize>().ok()).unwrap_or(ctx.scale(100, 3000));
     let opts = CaseOpts {
         all_points: !ctx.is_quick(),
         known_per_mille: std::env::var("C33_KNOWN_PER_MILLE").ok().and_then(|s| s.parse().ok()).unwrap_or(60),
